@@ -1734,6 +1734,11 @@ get_preprocessor_args(int c, string &args) {
   // Check for comments first.
   c = skip_comment(c);
 
+  // A comment marker within a string or character literal (as in
+  // #include "dir//file.h" or #define URL "http://host") does not begin a
+  // comment.  This holds the closing quote character while we are in one.
+  int quote = 0;
+
   while (c != EOF && c != '\n') {
     if (c == '\\') {
       int next_c = get();
@@ -1748,9 +1753,24 @@ get_preprocessor_args(int c, string &args) {
         }
       }
     } else {
+      if (quote != 0) {
+        if (c == quote) {
+          quote = 0;
+        }
+      } else if (c == '"') {
+        quote = c;
+      } else if (c == '\'' &&
+                 (args.empty() || !(isalnum(args.back()) || args.back() == '_'))) {
+        // An apostrophe that follows a digit or letter is a digit separator
+        // (or part of some free-form text), not the start of a literal.
+        quote = c;
+      }
       args += c;
     }
-    c = skip_comment(get());
+    c = get();
+    if (quote == 0) {
+      c = skip_comment(c);
+    }
   }
 
   // Remove any leading and trailing whitespace from the args.
